@@ -548,6 +548,10 @@ impl Message {
                         }
                         internal::DHTRequestSpecific::PutValue { arguments } => {
                             if let Some(k) = arguments.k {
+                                let (Some(seq), Some(sig)) = (arguments.seq, arguments.sig) else {
+                                    return Err(DecodeMessageError::MissingMutableFields);
+                                };
+
                                 RequestSpecific {
                                     requester_id: Id::from_bytes(arguments.id)?,
 
@@ -558,12 +562,8 @@ impl Message {
                                                 target: Id::from_bytes(arguments.target)?,
                                                 v: arguments.v,
                                                 k,
-                                                seq: arguments.seq.expect(
-                                                    "Put mutable message to have sequence number",
-                                                ),
-                                                sig: arguments.sig.expect(
-                                                    "Put mutable message to have a signature",
-                                                ),
+                                                seq,
+                                                sig,
                                                 salt: arguments.salt,
                                                 cas: arguments.cas,
                                             },
@@ -923,6 +923,9 @@ pub enum DecodeMessageError {
 
     #[error("Wrong number of bytes for signed peers")]
     InvalidSignedPeersEncodingLength,
+
+    #[error("Put mutable request has a key but no sequence number or signature")]
+    MissingMutableFields,
 }
 
 #[cfg(test)]
